@@ -18,7 +18,11 @@ ForestProg == Program(<<Enum("Tree", Mod, <<>>, <<Variant("Leaf", 0, <<>>), Vari
                                                     SField("d", P_Adt("NonCompact", <<bool>>)), SField("e", P_Compact(u32)), CField("f", u32)>>),
                         Struct("NonCompact", Mod, <<Param("T")>>, <<SField("", T)>>),
                         Struct("Long", Mod, <<>>, <<SField("bloom", P_Arr(u8, 300)), SField("w", P_Arr(u32, 257)), SField("s", P_Arr(bool, 33))>>)>>, <<>>)
-Extra == {[fam |-> "G12", prog |-> EmptyEnumProg, roots |-> <<A0("DeepNever"), A0("Big")>>],
+\* arrays whose elements are tuples / nested arrays with and without non-Copy members (the short form [x; n] needs a Copy element)
+ArrProg == Program(<<Struct("Arrs", Mod, <<>>, <<SField("a", P_Arr(P_Tup(<<str, u8>>), 3)), SField("b", P_Arr(P_Tup(<<u8, str>>), 2)), SField("c", P_Arr(P_Arr(P_Tup(<<bool, str, u8>>), 2), 2)),
+                                                 SField("d", P_Arr(P_Tup(<<u8, u16>>), 3)), SField("e", P_Arr(P_Vec(u8), 2)), SField("f", P_Arr(P_Tup(<<u8, P_Tup(<<str>>)>>), 2)),
+                                                 SField("g", P_Arr(P_Tup(<<P_Vec(u8), u8, bool>>), 2)), SField("h", P_Arr(P_Arr(u8, 2), 3))>>)>>, <<>>)
+Extra == {[fam |-> "G12", prog |-> ArrProg, roots |-> <<A0("Arrs")>>], [fam |-> "G12", prog |-> EmptyEnumProg, roots |-> <<A0("DeepNever"), A0("Big")>>],
           [fam |-> "G12", prog |-> ForestProg, roots |-> <<A0("Forest"), A0("Nest"), A0("Long")>>]}
 Cases == CASE FAMILY = "G1a_1" -> G1a_1(0) [] FAMILY = "G1c" -> G1c(0) \cup Extra [] FAMILY = "G8" -> G8(0) \cup G8b(0) [] FAMILY = "G13" -> G13(3)
 
